@@ -212,16 +212,23 @@ def oracle_core(ctx, rng, n):
     for ci in range(n):
         keep = [p for p in gi.core_positions(2) if p == (1, 1) or rng.random() < 0.8]
         gm = rng.choice(['flow', 'no_flow', 'duct_average'])
+        tdep = ci % 3 == 2       # every third core: temperature-dependent coolant, correlated parameters re-evaluated only when the
+        if tdep:                 # properties moved by more than a tolerance (per-assembly state), all seven positions occupied
+            keep = gi.core_positions(2)
         for _try in range(8):
             base = gi.random_case(rng, positions=keep, n_types=2, gap_model=gm, length=0.08, with_power=False, flow_range=(0.5, 4.0),
-                                  type_kw=dict(n_duct=1))
+                                  type_kw=dict(n_duct=1), const_props=not tdep)
             if len(set(t['num_rings'] for t in base['types'].values())) == 2:
                 break
+        if tdep:
+            base['core']['coolant_material'] = 'sodium'
+            base['setup']['param_update_tol'] = rng.choice([0.01, 0.05])
+            ctx.count("core_rotations_with_update_tolerance")
         # the two types (different ring counts = different gap meshes) alternate around ring 2, so that gap corners see mixed
         # meshes; the numbering seam (position 6 -> 1) then falls between unlike neighbours
         names = list(base['types'])
         for k, asm in enumerate(base['assignment']):
-            if ci % 2 == 0:
+            if ci % 2 == 0 or tdep:
                 asm['type'] = names[k % 2]
         base['core']['bypass_fraction'] = 0.03
         pw = asym_power(rng, base)
